@@ -208,7 +208,6 @@ func b2b(b bool) byte {
 	return 0
 }
 
-
 const reductionNote = "decision points: the five points in front of x.mu.Lock() (guarded by 'mutex free'), the point in front of close(p.done) and the point in front of <-p.done (disabled until the owner passed the point after close); all other yield points (after the critical sections, the stub Getter, the decode functions) are recorded but do not branch, because the code between them and the next decision point touches goroutine-local state only"
 
 // TestEnum2 enumerates all schedules of all 2-worker programs.
@@ -274,7 +273,6 @@ func TestFullPoints(t *testing.T) {
 	progs := family(2, 1, 2)
 	limit := vt.Scale(5000, 1500000)
 	skipped := 0
-	allComplete := true
 	for pi := range progs {
 		if !vt.Mine(pi) {
 			continue
@@ -329,15 +327,17 @@ func TestFullPoints(t *testing.T) {
 			st.Class("programs compared completely", 1)
 		} else {
 			skipped++
-			allComplete = false
 			st.Class("programs compared up to the limit", 1)
 		}
 		st.SetExtra("outcomes["+p.ID()+"]", len(sets[0]))
 	}
-	if allComplete {
-		st.SetExhaustive(fmt.Sprintf("all schedules with every yield point as decision point, for all %d programs of 2 workers x 1 operation; outcome sets equal those of the reduced enumeration", len(progs)))
-	} else {
-		st.Note("%d programs had more than %d full-point schedules; for those only 'full outcomes are a subset of reduced outcomes' was checked on the enumerated part", skipped, limit)
+	// The claim is worded so that it holds for every shard and for their
+	// union (the driver keeps one shard's text): which programs fall under
+	// it is counted by the classes "programs compared completely" and
+	// "programs compared up to the limit".
+	st.SetExhaustive(fmt.Sprintf("for every program of the %d programs of 2 workers x 1 operation that has at most %d schedules when EVERY yield point is a decision point: all those schedules, with the set of outcomes equal to that of the reduced enumeration; for larger programs only the first %d full-point schedules (their outcomes are a subset of the reduced enumeration's)", len(progs), limit, limit))
+	if skipped > 0 {
+		st.Note("%d programs of this shard had more than %d full-point schedules", skipped, limit)
 	}
 }
 
